@@ -1,6 +1,7 @@
 import Ruint.Model.History
 import Ruint.Gen.WordsKernels
 import Ruint.Gen.WordsUintMod
+import Ruint.Gen.WordsFls
 /-! Driver for C04.
 * `hist`: model = `Ruint.History.step` (limb-level models) for the operations that have one, value-level
   arithmetic re-encoded into limbs for operations owned by other properties; spec = value-level arithmetic
@@ -205,10 +206,15 @@ def limbOps (op : String) (bits : Nat) (ls : String) : String × String :=
   | "ofls" => (match Canon.overflowingFromLimbsSlice bits sl with
       | some (n, f) => out n ++ " " ++ boolStr f
       | none => "panic", toHex (v % m) ++ " " ++ boolStr ov)
-  | "fls" => (resStr (Canon.fromLimbsSlice bits sl), if ov then "panic" else toHex v)
-  | "cfls" => (resStrO (Canon.checkedFromLimbsSlice bits sl), if ov then "none" else "some " ++ toHex v)
-  | "wfls" => (resStr (Canon.wrappingFromLimbsSlice bits sl), toHex (v % m))
-  | "sfls" => (resStr (Canon.saturatingFromLimbsSlice bits sl), if ov then toHex (m - 1) else toHex v)
+  -- the limb-slice constructors GENERATED from src/lib.rs (`Props/C04.gen_from_limbs_slice_family_eq`)
+  | "fls" => (resStr (match Ruint.Gen.uint_from_limbs_slice bits (nlimbs bits) sl with | some l => .ok l | none => .panic),
+              if ov then "panic" else toHex v)
+  | "cfls" => (resStrO (match Ruint.Gen.uint_checked_from_limbs_slice bits (nlimbs bits) sl with
+                 | some (some l) => .ok l | some none => .none | none => .panic), if ov then "none" else "some " ++ toHex v)
+  | "wfls" => (resStr (match Ruint.Gen.uint_wrapping_from_limbs_slice bits (nlimbs bits) sl with | some l => .ok l | none => .panic),
+               toHex (v % m))
+  | "sfls" => (resStr (match Ruint.Gen.uint_saturating_from_limbs_slice bits (nlimbs bits) sl with | some l => .ok l | none => .panic),
+               if ov then toHex (m - 1) else toHex v)
   -- `from_limbs` GENERATED from src/lib.rs (`Props/C04.gen_from_limbs_eq`) when the slice has LIMBS limbs
   | "from_limbs" => (match (if sl.length = nlimbs bits then Ruint.Gen.uint_from_limbs bits (nlimbs bits) sl
                             else Canon.fromLimbs bits sl) with | some l => out l | none => "panic",
